@@ -86,8 +86,8 @@ pub struct TNs {
 #[derive(Clone, Debug, PartialEq, Default)]
 pub struct Tab {
     pub nss: Vec<TNs>,
-    /// inconsistencies of the serialised model itself (entities_short vs namespaces)
-    pub problems: Vec<String>,
+    /// the reverse table `entities_short`: short name -> (namespace, entity), as `short=ns:Entity`, sorted
+    pub rev: Vec<String>,
 }
 impl Tab {
     pub fn text(&self) -> String {
@@ -100,6 +100,8 @@ impl Tab {
                 s.push_str(&e.text());
             }
         }
+        s.push_str("|#rev:");
+        s.push_str(&self.rev.join(","));
         s
     }
     pub fn ns(&self, n: &str) -> Option<&TNs> {
@@ -207,11 +209,6 @@ pub fn table(model_json: &Value) -> Tab {
                     }
                 }
                 fields.sort_by(|a, b| a.short.cmp(&b.short).then(a.name.cmp(&b.name)));
-                match shorts.get(&short) {
-                    Some(Value::Array(a))
-                        if a.len() == 2 && a[0].as_str() == Some(nname) && a[1].as_str() == Some(full) => {}
-                    other => tab.problems.push(format!("entities_short[{}]={:?} expected ({},{})", short, other, nname, full)),
-                }
                 tn.ents.push(TEnt {
                     name,
                     short,
@@ -228,6 +225,15 @@ pub fn table(model_json: &Value) -> Tab {
         tab.nss.push(tn);
     }
     tab.nss.sort_by(|a, b| a.id.cmp(&b.id).then(a.name.cmp(&b.name)));
+    for (short, v) in &shorts {
+        let (n, full) = match v {
+            Value::Array(a) if a.len() == 2 => (a[0].as_str().unwrap_or("?").to_string(), a[1].as_str().unwrap_or("?").to_string()),
+            _ => ("?".to_string(), "?".to_string()),
+        };
+        let name = if n.is_empty() { full.clone() } else { full.strip_prefix(&format!("{}.", n)).unwrap_or(&full).to_string() };
+        tab.rev.push(format!("{}={}:{}", short, n, name));
+    }
+    tab.rev.sort();
     tab
 }
 
@@ -422,6 +428,61 @@ impl Inst {
             // one round trip through the actor: the pending DailyLogComputed messages are consumed before it
             let _ = tokio::time::timeout(CALL_TIMEOUT, svc.datamodel()).await;
         }
+    }
+
+    /// Every stored user row against the live model, the way `GraphDatabase::add_nodes` judges a row that
+    /// comes from a peer (graph_database.rs:1254-1270): `name_for(short)` -> `get_entity` ->
+    /// `validate_json_for_entity`. Returns (rows checked, `r<no>:<class>` of the rows that do not conform).
+    async fn conformance(&mut self) -> Option<(u64, Vec<String>)> {
+        use discret::verif_hooks::database::query_language::data_model_parser::validate_json_for_entity;
+        use discret::verif_hooks::security::base64_encode;
+        let svc = self.svc.as_ref()?;
+        let js = svc.datamodel().await.ok()?;
+        let dm: DataModel = serde_json::from_str(&js).ok()?;
+        let (send, receive) = oneshot::channel::<Vec<(Vec<u8>, String, Option<String>)>>();
+        svc.db
+            .reader
+            .send_async(Box::new(move |conn| {
+                let mut res = vec![];
+                if let Ok(mut stmt) = conn.prepare("SELECT id, _entity, _json FROM _node ORDER BY cdate, id") {
+                    if let Ok(rows) = stmt.query_map([], |row| Ok((row.get::<_, Vec<u8>>(0)?, row.get::<_, String>(1)?, row.get::<_, Option<String>>(2)?))) {
+                        for r in rows.flatten() {
+                            res.push(r);
+                        }
+                    }
+                }
+                let _ = send.send(res);
+            }))
+            .await
+            .ok()?;
+        let rows = tokio::time::timeout(CALL_TIMEOUT, receive).await.ok()?.ok()?;
+        let mut total = 0u64;
+        let mut bad = vec![];
+        for (id, short, json) in rows {
+            if short.starts_with("0.") {
+                continue; // rows of the system namespace
+            }
+            let Some(no) = self.rows.get(&base64_encode(&id)).copied() else { continue };
+            total += 1;
+            let verdict = match dm.name_for(&short) {
+                None => Some("UnknownShort".to_string()),
+                Some(name) => match dm.get_entity(&name) {
+                    Err(_) => Some("UnknownEntity".to_string()),
+                    Ok(entity) => match validate_json_for_entity(entity, &json) {
+                        Ok(()) => None,
+                        Err(e) => {
+                            let d = format!("{:?}", e);
+                            Some(d.split(|c: char| !c.is_alphanumeric()).next().unwrap_or("?").to_string())
+                        }
+                    },
+                },
+            };
+            if let Some(v) = verdict {
+                bad.push((no, v));
+            }
+        }
+        bad.sort();
+        Some((total, bad.into_iter().map(|(n, v)| format!("r{}:{}", n, v)).collect()))
     }
 
     /// the live model of the running instance (public `datamodel()` accessor)
@@ -721,6 +782,29 @@ pub async fn run(ops: &str, out: &str, stats_path: Option<&str>, work: &str) {
                     _ => "bad-op".into(),
                 }
             }
+            "conf" => match (get("i"), &mut world) {
+                (Some(i), World::Db(insts)) if (i as usize) < insts.len() => {
+                    let inst = &mut insts[i as usize];
+                    match inst.conformance().await {
+                        None => "not-running".into(),
+                        Some((total, bad)) => {
+                            stats.add("rows_checked", total);
+                            if bad.is_empty() {
+                                format!("conf ok n={}", total)
+                            } else {
+                                c14w.oracle.push(format!(
+                                    "{} old-row-not-conforming rows of the instance that a peer running the same model refuses: {}",
+                                    c14w.case_index.max(0),
+                                    bad.join(",")
+                                ));
+                                let nos: Vec<String> = bad.iter().map(|b| b.split(':').next().unwrap_or("").to_string()).collect();
+                                format!("conf bad n={} {}", total, nos.join(","))
+                            }
+                        }
+                    }
+                }
+                _ => "bad-op".into(),
+            },
             "get" => {
                 let er = kv.get("e").and_then(|s| s.split_once(':'));
                 match (get("i"), er, kv.get("f"), &mut world) {
